@@ -157,8 +157,8 @@ CLAIMED = {
         "file/block/array compression triples, with all cells compared bit-for-bit after every step, plus dtype, len, size, "
         "read_direct, single-element reads and the stored dataset's compression filter.",
         "Trusted: Coq kernel; h5py/libhdf5 (chunks, gzip, fill) exercised not proven; numpy casting not modelled (only values of the "
-        "array's own type are written); the NoDup/in-range hypotheses of the region theorem are not yet derived from in-bounds "
-        "selections (they are what the correspondence exercises).",
+        "array's own type are written). The distinctness / in-range hypotheses of the region theorem are now derived for every "
+        "selection within the extents (c01_region_inbounds, c01_selection_cells_distinct).",
         "DESIGN.md section 5 C01", TECH),
     "C15": (
         "Coq theorems over exact rationals: Horner evaluation (polyval) is c0 + c1 y + c2 y^2 + ...; every element of a calibrated "
